@@ -17,54 +17,310 @@ namespace CalicoVerif.C02
 theorem has_iff {md : MD} {k m : String} : MD.has md k m = true ↔ (k, m) ∈ md := by simp [MD.has]
 
 /-- `OnIPSetAdded` on a set that upstream had not declared: no panic, invariant kept. -/
-theorem IpsInv.ipsetAdded {s : State} {U D} (h : IpsInv s.ipsSt U D) (id : String) (typ : Nat) (hv : U id = none) :
-    ∃ s', s.call (.ipsetAdded id typ) = some s' ∧ IpsInv s'.ipsSt (fupd U id (some (fun _ => false))) D ∧
-      s'.pol = s.pol ∧ s'.prof = s.prof ∧ s'.ep = s.ep ∧ s'.vtep = s.vtep ∧ s'.route = s.route ∧ s'.gen = s.gen := by
-  have hd := (h.decl id)
+theorem IpsInv.ipsetAdded {a : List (String × Nat)} {r : List String} {am rm : MD} {st : List String} {U D}
+    (h : IpsInv ⟨a, r, am, rm, st⟩ U D) (id : String) (typ : Nat) (hv : U id = none) :
+    ¬ (id ∈ st ∧ id ∉ r) ∧
+    IpsInv ⟨mset id typ a, sdel id r, am.discardKey id, rm.discardKey id, st⟩ (fupd U id (some (fun _ => false))) D := by
+  obtain ⟨hsent, hdecl, hrs, hrn, hrna, han, hnew, hold, hmd⟩ := h
+  dsimp only at hsent hdecl hrs hrn hrna han hnew hold hmd
+  have hd := hdecl id
   rw [hv] at hd
-  simp only [Option.isSome_none, Bool.false_eq_true, false_iff, not_or, not_and, Decidable.not_not] at hd
-  have hnp : ¬ (id ∈ s.sentSets ∧ id ∉ s.removedSets) := fun ⟨a, b⟩ => b (hd.2 a)
-  refine ⟨_, ?_, ?_, rfl, rfl, rfl, rfl, rfl, rfl⟩
-  · simp only [State.call]
-    by_cases h1 : id ∈ s.sentSets
-    · have := hd.2 h1; simp [h1, this]
-    · simp [h1]
-  · simp only [State.ipsSt] at h ⊢
-    refine ⟨h.sent, ?_, ?_, nodup_sdel h.remNodup, ?_, mkeys_mset_nodup h.addNodup, ?_, ?_, ?_⟩
-    · intro k
-      by_cases hk : k = id
-      · subst hk; simp [fupd, mget_mset]
-      · simp only [fupd, hk, if_false, mget_mset, mem_sdel, ne_eq, not_false_eq_true, and_true]
-        exact h.decl k
-    · intro k hk; simp only [mem_sdel] at hk; exact h.remSent k hk.1
-    · intro k hk
-      simp only [mem_sdel] at hk
-      simp only [mget_mset, hk.2, if_false]
-      exact h.remNotAdded k hk.1
+  simp only [Option.isSome_none, Bool.false_eq_true, false_iff, not_or] at hd
+  refine ⟨hd.2, ⟨hsent, ?_, ?_, nodup_sdel hrn, ?_, mkeys_mset_nodup han, ?_, ?_, ?_⟩⟩ <;> dsimp only
+  · intro k
+    by_cases hk : k = id
+    · subst hk; simp [fupd, mget_mset]
+    · simp only [fupd, hk, if_false, mget_mset, mem_sdel, ne_eq, not_false_eq_true, and_true]
+      exact hdecl k
+  · intro k hk; simp only [mem_sdel] at hk; exact hrs k hk.1
+  · intro k hk
+    simp only [mem_sdel] at hk
+    simp only [mget_mset, hk.2, if_false]
+    exact hrna k hk.1
+  · intro k fu hu ha
+    by_cases hk : k = id
+    · subst hk
+      simp only [fupd, if_true, Option.some.injEq] at hu
+      subst hu
+      simp
+    · simp only [fupd, hk, if_false] at hu
+      simp only [mget_mset, hk, if_false] at ha
+      have := hnew k fu hu ha
+      simp only [mem_discardKey, ne_eq, hk, not_false_eq_true, and_true]
+      exact this
+  · intro k fu hu ha
+    by_cases hk : k = id
+    · subst hk; simp [mget_mset] at ha
+    · simp only [fupd, hk, if_false] at hu
+      simp only [mget_mset, hk, if_false] at ha
+      have := hold k fu hu ha
+      simp only [mem_discardKey, ne_eq, hk, not_false_eq_true, and_true]
+      exact this
+  · intro k m hm
+    simp only [mem_discardKey] at hm
+    by_cases hk : k = id
+    · simp [fupd, hk]
+    · simp only [fupd, hk, if_false]
+      exact hmd k m (by rcases hm with a | a; exact Or.inl a.1; exact Or.inr a.1)
+
+/-- `OnIPSetRemoved` on a declared set: known to the sequencer (no panic), invariant kept. -/
+theorem IpsInv.ipsetRemoved {a : List (String × Nat)} {r : List String} {am rm : MD} {st : List String} {U D}
+    (h : IpsInv ⟨a, r, am, rm, st⟩ U D) (id : String) (hv : (U id).isSome) :
+    (id ∈ st ∨ (mget a id).isSome) ∧
+    IpsInv ⟨mdel id a, if id ∈ st then sadd id r else r, am.discardKey id, rm.discardKey id, st⟩ (fupd U id none) D := by
+  obtain ⟨hsent, hdecl, hrs, hrn, hrna, han, hnew, hold, hmd⟩ := h
+  dsimp only at hsent hdecl hrs hrn hrna han hnew hold hmd
+  have hd := (hdecl id).1 hv
+  refine ⟨by rcases hd with x | x; exact Or.inr x; exact Or.inl x.1,
+    ⟨hsent, ?_, ?_, ?_, ?_, mkeys_mdel_nodup han, ?_, ?_, ?_⟩⟩ <;> dsimp only
+  · intro k
+    by_cases hk : k = id
+    · subst hk
+      by_cases hs : k ∈ st <;> simp [fupd, mget_mdel, hs]
+    · simp only [fupd, hk, if_false, mget_mdel]
+      rw [hdecl k]
+      by_cases hs : id ∈ st <;> simp [hs, hk]
+  · intro k hk
+    by_cases hs : id ∈ st
+    · simp only [hs, if_true, mem_sadd] at hk
+      rcases hk with rfl | hk
+      · exact hs
+      · exact hrs k hk
+    · simp only [hs, if_false] at hk; exact hrs k hk
+  · by_cases hs : id ∈ st
+    · simp only [hs, if_true]; exact nodup_sadd hrn
+    · simp only [hs, if_false]; exact hrn
+  · intro k hk
+    rw [mget_mdel]
+    by_cases hk' : k = id
+    · simp [hk']
+    · simp only [hk', if_false]
+      by_cases hs : id ∈ st
+      · simp only [hs, if_true, mem_sadd, hk', false_or] at hk; exact hrna k hk
+      · simp only [hs, if_false] at hk; exact hrna k hk
+  · intro k fu hu ha
+    by_cases hk : k = id
+    · subst hk; simp [fupd] at hu
+    · simp only [fupd, hk, if_false] at hu
+      simp only [mget_mdel, hk, if_false] at ha
+      have := hnew k fu hu ha
+      simp only [mem_discardKey, ne_eq, hk, not_false_eq_true, and_true]
+      exact this
+  · intro k fu hu ha
+    by_cases hk : k = id
+    · subst hk; simp [fupd] at hu
+    · simp only [fupd, hk, if_false] at hu
+      simp only [mget_mdel, hk, if_false] at ha
+      have := hold k fu hu ha
+      simp only [mem_discardKey, ne_eq, hk, not_false_eq_true, and_true]
+      exact this
+  · intro k m hm
+    simp only [mem_discardKey] at hm
+    have hk : k ≠ id := by rcases hm with x | x <;> exact x.2
+    simp only [fupd, hk, if_false]
+    exact hmd k m (by rcases hm with x | x; exact Or.inl x.1; exact Or.inr x.1)
+
+/-- `OnIPSetMemberAdded` of an absent member of a declared set. -/
+theorem IpsInv.memberAdded {a : List (String × Nat)} {r : List String} {am rm : MD} {st : List String} {U D}
+    (h : IpsInv ⟨a, r, am, rm, st⟩ U D) (id m : String) (f : String → Bool) (hv : U id = some f) (hm : f m = false) :
+    (id ∈ st ∨ (mget a id).isSome) ∧
+    IpsInv ⟨a, r, if rm.has id m then am else am.put id m, if rm.has id m then rm.discard id m else rm, st⟩
+      (fupd U id (some (fun m' => f m' || decide (m' = m)))) D := by
+  obtain ⟨hsent, hdecl, hrs, hrn, hrna, han, hnew, hold, hmd⟩ := h
+  dsimp only at hsent hdecl hrs hrn hrna han hnew hold hmd
+  have hd := (hdecl id).1 (by simp [hv])
+  have hdeclU : ∀ k, ((fupd U id (some (fun m' => f m' || decide (m' = m)))) k).isSome ↔ (U k).isSome := by
+    intro k; by_cases hk : k = id <;> simp [fupd, hk, hv]
+  refine ⟨by rcases hd with x | x; exact Or.inr x; exact Or.inl x.1, ?_⟩
+  cases hh : rm.has id m
+  · -- not pending-removed: the member goes to pendingAddedIPSetMembers
+    have hin : (id, m) ∉ rm := fun x => by simp [MD.has, x] at hh
+    simp only [Bool.false_eq_true, if_false]
+    refine ⟨hsent, fun k => (hdeclU k).trans (hdecl k), hrs, hrn, hrna, han, ?_, ?_, ?_⟩ <;> dsimp only
     · intro k fu hu ha
       by_cases hk : k = id
       · subst hk
         simp only [fupd, if_true, Option.some.injEq] at hu
         subst hu
-        simp
+        have hn := hnew k f hv ha
+        refine ⟨fun m' => ?_, hn.2⟩
+        simp only [Bool.or_eq_true, decide_eq_true_eq, hn.1 m', mem_put, true_and]
+        exact or_comm
       · simp only [fupd, hk, if_false] at hu
-        simp only [mget_mset, hk, if_false] at ha
-        have := h.memNew k fu hu ha
-        simp only [mem_discardKey, ne_eq, hk, not_false_eq_true, and_true]
-        exact this
+        have hn := hnew k fu hu ha
+        refine ⟨fun m' => ?_, hn.2⟩
+        rw [hn.1 m']; simp [hk]
     · intro k fu hu ha
       by_cases hk : k = id
-      · subst hk; simp [mget_mset] at ha
+      · subst hk
+        simp only [fupd, if_true, Option.some.injEq] at hu
+        subst hu
+        obtain ⟨fd, hD, h1, h2, h3⟩ := hold k f hv ha
+        have hfdm : fd m = false := by
+          have := (not_congr (h1 m)).1 (by simp [hm])
+          simp only [not_or, not_and, Decidable.not_not] at this
+          cases hfd : fd m
+          · rfl
+          · exact absurd (this.1 hfd) hin
+        refine ⟨fd, hD, ?_, ?_, h3⟩
+        · intro m'
+          simp only [Bool.or_eq_true, decide_eq_true_eq, h1 m', mem_put, true_and]
+          constructor
+          · rintro ((x | x) | x)
+            · exact Or.inl x
+            · exact Or.inr (Or.inr x)
+            · exact Or.inr (Or.inl x)
+          · rintro (x | x | x)
+            · exact Or.inl (Or.inl x)
+            · exact Or.inr x
+            · exact Or.inl (Or.inr x)
+        · intro m' hm'
+          simp only [mem_put, true_and] at hm'
+          rcases hm' with x | x
+          · subst x; exact hfdm
+          · exact h2 m' x
       · simp only [fupd, hk, if_false] at hu
-        simp only [mget_mset, hk, if_false] at ha
-        have := h.memOld k fu hu ha
-        simp only [mem_discardKey, ne_eq, hk, not_false_eq_true, and_true]
-        exact this
-    · intro k m hm
-      simp only [mem_discardKey] at hm
+        obtain ⟨fd, hD, h1, h2, h3⟩ := hold k fu hu ha
+        refine ⟨fd, hD, ?_, ?_, h3⟩
+        · intro m'; rw [h1 m']; simp [hk]
+        · intro m' hm'
+          simp only [mem_put, hk, false_and, false_or] at hm'; exact h2 m' hm'
+    · intro k m' hm'
+      rw [hdeclU]
+      simp only [mem_put] at hm'
+      rcases hm' with (⟨rfl, _⟩ | x) | x
+      · simp [hv]
+      · exact hmd k m' (Or.inl x)
+      · exact hmd k m' (Or.inr x)
+  · -- pending-removed: the pending removal is cancelled
+    have hin : (id, m) ∈ rm := has_iff.1 hh
+    simp only [if_true]
+    refine ⟨hsent, fun k => (hdeclU k).trans (hdecl k), hrs, hrn, hrna, han, ?_, ?_, ?_⟩ <;> dsimp only
+    · intro k fu hu ha
       by_cases hk : k = id
-      · simp [fupd, hk]
-      · simp only [fupd, hk, if_false]
-        exact h.memDecl k m (by rcases hm with a | a; exact Or.inl a.1; exact Or.inr a.1)
+      · subst hk
+        exact absurd hin ((hnew k f hv ha).2 m)
+      · simp only [fupd, hk, if_false] at hu
+        have hn := hnew k fu hu ha
+        refine ⟨hn.1, fun m' => ?_⟩
+        simp only [mem_discard, not_and]; exact fun x => absurd x (hn.2 m')
+    · intro k fu hu ha
+      by_cases hk : k = id
+      · subst hk
+        simp only [fupd, if_true, Option.some.injEq] at hu
+        subst hu
+        obtain ⟨fd, hD, h1, h2, h3⟩ := hold k f hv ha
+        refine ⟨fd, hD, ?_, h2, fun m' hm' => h3 m' (mem_discard.1 hm').1⟩
+        intro m'
+        simp only [Bool.or_eq_true, decide_eq_true_eq, h1 m', mem_discard, true_and, not_and, Decidable.not_not]
+        by_cases hmm : m' = m
+        · subst hmm; simp [h3 m' hin]
+        · simp [hmm]
+      · simp only [fupd, hk, if_false] at hu
+        obtain ⟨fd, hD, h1, h2, h3⟩ := hold k fu hu ha
+        refine ⟨fd, hD, ?_, h2, fun m' hm' => h3 m' (mem_discard.1 hm').1⟩
+        intro m'; rw [h1 m']; simp [hk]
+    · intro k m' hm'
+      rw [hdeclU]
+      simp only [mem_discard] at hm'
+      exact hmd k m' (by rcases hm' with x | x; exact Or.inl x; exact Or.inr x.1)
+
+/-- `OnIPSetMemberRemoved` of a present member of a declared set. -/
+theorem IpsInv.memberRemoved {a : List (String × Nat)} {r : List String} {am rm : MD} {st : List String} {U D}
+    (h : IpsInv ⟨a, r, am, rm, st⟩ U D) (id m : String) (f : String → Bool) (hv : U id = some f) (hm : f m = true) :
+    (id ∈ st ∨ (mget a id).isSome) ∧
+    IpsInv ⟨a, r, if am.has id m then am.discard id m else am, if am.has id m then rm else rm.put id m, st⟩
+      (fupd U id (some (fun m' => f m' && !decide (m' = m)))) D := by
+  obtain ⟨hsent, hdecl, hrs, hrn, hrna, han, hnew, hold, hmd⟩ := h
+  dsimp only at hsent hdecl hrs hrn hrna han hnew hold hmd
+  have hd := (hdecl id).1 (by simp [hv])
+  have hdeclU : ∀ k, ((fupd U id (some (fun m' => f m' && !decide (m' = m)))) k).isSome ↔ (U k).isSome := by
+    intro k; by_cases hk : k = id <;> simp [fupd, hk, hv]
+  refine ⟨by rcases hd with x | x; exact Or.inr x; exact Or.inl x.1, ?_⟩
+  cases hh : am.has id m
+  · -- not pending-added: the removal is queued
+    have hin : (id, m) ∉ am := fun x => by simp [MD.has, x] at hh
+    simp only [Bool.false_eq_true, if_false]
+    refine ⟨hsent, fun k => (hdeclU k).trans (hdecl k), hrs, hrn, hrna, han, ?_, ?_, ?_⟩ <;> dsimp only
+    · intro k fu hu ha
+      by_cases hk : k = id
+      · subst hk
+        exact absurd (((hnew k f hv ha).1 m).1 hm) hin
+      · simp only [fupd, hk, if_false] at hu
+        have hn := hnew k fu hu ha
+        refine ⟨hn.1, fun m' => ?_⟩
+        simp only [mem_put, hk, false_and, false_or]; exact hn.2 m'
+    · intro k fu hu ha
+      by_cases hk : k = id
+      · subst hk
+        simp only [fupd, if_true, Option.some.injEq] at hu
+        subst hu
+        obtain ⟨fd, hD, h1, h2, h3⟩ := hold k f hv ha
+        have hfdm : fd m = true ∧ (k, m) ∉ rm := by
+          rcases (h1 m).1 hm with x | x
+          · exact x
+          · exact absurd x hin
+        refine ⟨fd, hD, ?_, h2, ?_⟩
+        · intro m'
+          simp only [Bool.and_eq_true, Bool.not_eq_true', decide_eq_false_iff_not, h1 m', mem_put, true_and, not_or]
+          by_cases hmm : m' = m
+          · subst hmm; simp [hin]
+          · simp [hmm]
+        · intro m' hm'
+          simp only [mem_put, true_and] at hm'
+          rcases hm' with x | x
+          · subst x; exact hfdm.1
+          · exact h3 m' x
+      · simp only [fupd, hk, if_false] at hu
+        obtain ⟨fd, hD, h1, h2, h3⟩ := hold k fu hu ha
+        refine ⟨fd, hD, ?_, h2, ?_⟩
+        · intro m'; rw [h1 m']; simp [hk]
+        · intro m' hm'
+          simp only [mem_put, hk, false_and, false_or] at hm'; exact h3 m' hm'
+    · intro k m' hm'
+      rw [hdeclU]
+      simp only [mem_put] at hm'
+      rcases hm' with x | (⟨rfl, _⟩ | x)
+      · exact hmd k m' (Or.inl x)
+      · simp [hv]
+      · exact hmd k m' (Or.inr x)
+  · -- pending-added: the pending add is cancelled
+    have hin : (id, m) ∈ am := has_iff.1 hh
+    simp only [if_true]
+    refine ⟨hsent, fun k => (hdeclU k).trans (hdecl k), hrs, hrn, hrna, han, ?_, ?_, ?_⟩ <;> dsimp only
+    · intro k fu hu ha
+      by_cases hk : k = id
+      · subst hk
+        simp only [fupd, if_true, Option.some.injEq] at hu
+        subst hu
+        have hn := hnew k f hv ha
+        refine ⟨fun m' => ?_, hn.2⟩
+        simp only [Bool.and_eq_true, Bool.not_eq_true', decide_eq_false_iff_not, hn.1 m', mem_discard, true_and]
+      · simp only [fupd, hk, if_false] at hu
+        have hn := hnew k fu hu ha
+        refine ⟨fun m' => ?_, hn.2⟩
+        rw [hn.1 m']; simp [hk]
+    · intro k fu hu ha
+      by_cases hk : k = id
+      · subst hk
+        simp only [fupd, if_true, Option.some.injEq] at hu
+        subst hu
+        obtain ⟨fd, hD, h1, h2, h3⟩ := hold k f hv ha
+        refine ⟨fd, hD, ?_, fun m' hm' => h2 m' (mem_discard.1 hm').1, h3⟩
+        intro m'
+        simp only [Bool.and_eq_true, Bool.not_eq_true', decide_eq_false_iff_not, h1 m', mem_discard, true_and]
+        by_cases hmm : m' = m
+        · subst hmm
+          have := h2 m' hin
+          simp [this]
+        · simp [hmm]
+      · simp only [fupd, hk, if_false] at hu
+        obtain ⟨fd, hD, h1, h2, h3⟩ := hold k fu hu ha
+        refine ⟨fd, hD, ?_, fun m' hm' => h2 m' (mem_discard.1 hm').1, h3⟩
+        intro m'; rw [h1 m']; simp [hk]
+    · intro k m' hm'
+      rw [hdeclU]
+      simp only [mem_discard] at hm'
+      exact hmd k m' (by rcases hm' with x | x; exact Or.inl x.1; exact Or.inr x)
 
 end CalicoVerif.C02
